@@ -40,6 +40,10 @@ CLEAR = "C,P:3000:2,K,P:3000:2,F,D"                     # soxr_clear rebuilds ev
 QUICK_JOBS = [
     J("cr32s-44k-48k-stereo-clear", 44100, 48000, ch=2, q=4, simd=1, ops="C,P:1000:2,F,K,P:3000:3,D"),
     J("cr64-irrational-minphase-stream", 1, 1.2345678, ch=1, q=6, simd=0, phase=0, ops=STREAM),
+    # a caller that retries: soxr_clear fails (an allocation inside it), soxr_clear again, then the object is used - the torn-down object
+    # must keep refusing (round 7 of the seeded changes, `C20-fatal-error-keeps-control-block`: fatal_error and the torn-down test of
+    # soxr_clear are two sites that have to agree)
+    J("cr32s-stereo-clear-retry", 44100, 48000, ch=2, q=4, simd=1, ops="C,P:1000:2,K,K,P:500:1,F,D"),
     J("vr32-stereo-ratio-clear", 2, 1, ch=2, q=4, qf=VR, ops="C,P:2000:2,R:1.8:500,P:4000:2,R:1.3:0,P:2000:1,F,K,R:1.5:0,P:1000:1,D"),
     J("cr32-down-3ch-lazy", 96000, 44100, ch=3, q=1, simd=0, ops="Z,I:2.17687,P:5000:2,F,D"),
     J("cr64s-up64-dft-stream", 1, 64, ch=1, q=6, simd=1, ops="C,P:200:2,P:2000:1,F:50000,D"),
@@ -149,6 +153,9 @@ def parse_runs(text):
             if m:
                 cur["cps"].append(dict(op=int(m.group(1)), tok=m.group(2), err=int(m.group(3)), hit=int(m.group(4)), live=int(m.group(5)),
                                        ords=[int(x) for x in m.group(6).split(",") if x], msg=m.group(7)))
+        elif line.startswith("@POKE2"):
+            m = re.match(r"@POKE2 clear=(\d) err=(\d) sticky=(\d)", line)
+            cur["poke2"] = dict(clear=int(m.group(1)), err=int(m.group(2)), sticky=int(m.group(3)))
         elif line.startswith("@POKE"):
             m = re.match(r"@POKE err=(\d) odone=(\d+) sticky=(\d)", line)
             cur["poke"] = dict(err=int(m.group(1)), odone=int(m.group(2)), sticky=int(m.group(3)))
